@@ -75,6 +75,13 @@ class C08(Prop):
                 v = "unknown message type / EPD not reported as an error"
         elif name == "nmpdec" and spec.startswith("ok ") and impl == "err":
             v = "known message type refused"
+        elif name == "nmpre2":
+            # self-checking: a Message object that held another message before encodes its present contents
+            if impl.startswith("ok diff") or impl in ("panic", "hang"):
+                v = "a Message object that was decoded into before does not encode its present contents"
+            if v:
+                return ("viol", self.key(op, impl, model, spec), v)
+            return None
         if v:
             return ("viol", self.key(op, impl, model, spec), v)
         if impl != model:
